@@ -1906,6 +1906,34 @@ mod c08 {
         v
     }
 
+    /// chunk counts of the large valid xorbs: around the parser's pre-allocation batch (1152 chunks) and its
+    /// multiples, and the client's maximum (8192)
+    pub const BIG_COUNTS: [usize; 12] = [1000, 1151, 1152, 1153, 2303, 2304, 2305, 3456, 3457, 4000, 8191, 8192];
+
+    /// A valid xorb of `n` small distinct chunks written by the serializer under scheme `s`, with its hash.
+    pub fn big_valid(n: usize, s: u8) -> (Vec<u8>, RH) {
+        let mut g = Lcg::new(0xB16 + n as u64);
+        let chunks: Vec<Vec<u8>> = (0..n)
+            .map(|i| {
+                let len = 3 + (g.below(6) as usize);
+                let mut c = (i as u32).to_le_bytes().to_vec();
+                c.extend(std::iter::repeat((i % 7) as u8).take(len));
+                c
+            })
+            .collect();
+        let list: Vec<(RH, u64)> = chunks.iter().map(|c| (rm::chunk_hash(c), c.len() as u64)).collect();
+        let h_ref = rm::xorb_hash(&list);
+        let mut data = vec![];
+        let mut bounds = vec![];
+        for (c, (h, _)) in chunks.iter().zip(&list) {
+            data.extend_from_slice(c);
+            bounds.push((rm::to_mh(h), data.len() as u32));
+        }
+        let mut w = Cursor::new(Vec::new());
+        CasObject::serialize(&mut w, &rm::to_mh(&h_ref), &data, &bounds, scheme_opt(s)).unwrap_or_else(|e| machinery_error(&format!("cannot serialize a large valid xorb: {e}")));
+        (w.into_inner(), h_ref)
+    }
+
     /// the inputs of one job, in order
     fn job_inputs(spec: &Value, seeds: &[Seed], tier: Tier) -> Vec<(String, String, Vec<u8>, Vec<RH>, Option<usize>)> {
         let mut v = vec![];
@@ -1917,6 +1945,25 @@ mod c08 {
             let (from, to) = (spec["from"].as_u64().unwrap(), spec["to"].as_u64().unwrap());
             for i in from..to {
                 v.push((format!("tiny-{kind}"), format!("#{i}"), tiny_string(kind, i), vec![], None));
+            }
+        } else if let Some(bi) = spec["big"].as_u64() {
+            // a large valid xorb: unmutated, and a few faults in its footer / tail
+            let n = BIG_COUNTS[bi as usize % BIG_COUNTS.len()];
+            let sch = (bi as usize / BIG_COUNTS.len()) as u8;
+            let (b, h) = big_valid(n, sch);
+            let origin = format!("big-{n}chunks-{}", SCHEME_NAMES[sch as usize]);
+            v.push((origin.clone(), "unmutated".to_string(), b.clone(), vec![h], None));
+            let l = b.len();
+            for (d, m) in [
+                ("truncate-1", b[..l - 1].to_vec()),
+                ("truncate-4", b[..l - 4].to_vec()),
+                ("truncate-half", b[..l / 2].to_vec()),
+                ("tail-length^01", { let mut x = b.clone(); x[l - 4] ^= 1; x }),
+                ("tail-length^0100", { let mut x = b.clone(); x[l - 3] ^= 1; x }),
+                ("footer-byte-at-3/4^01", { let mut x = b.clone(); x[l - (l / 4)] ^= 1; x }),
+                ("last-boundary^01", { let mut x = b.clone(); x[l - 60] ^= 1; x }),
+            ] {
+                v.push((origin.clone(), d.to_string(), m, vec![h], None));
             }
         } else if let Some(si) = spec["aux_seed"].as_u64() {
             // the quick-tier mutation set without the chunk-level edits, in both tiers
@@ -1966,14 +2013,27 @@ mod c08 {
             if is_replay && !extra.is_empty() {
                 hashes = extra.iter().map(|h| ("recorded", *h)).collect();
             }
+            let big = origin.starts_with("big-");
+            if big && !is_replay {
+                let own = extra[0];
+                let mut w = own;
+                w[31] ^= 0x10;
+                hashes = vec![("seed", own), ("seed-with-one-bit-flipped", w), ("zero", rm::ZERO)];
+            }
             let valid_seed = match seed {
                 Some(s) if desc == "unmutated" => Some(s.footer_kind),
+                None if big && desc == "unmutated" => Some(FOOT_V1),
                 _ => None,
             };
             let inp = Input { origin, desc, bytes, hashes, valid_seed };
             if aux {
                 check_aux(&inp, &mut out);
                 continue;
+            }
+            if big {
+                // the partial footer parser sees the large objects too
+                check_aux(&inp, &mut out);
+                out.count("vac:large_valid_xorb_inputs", 1);
             }
             check_input(&inp, sabotage, &mut out);
             let trivial = seed.map(|s| s.bytes == *bytes).unwrap_or(false) && desc != "unmutated";
@@ -2000,13 +2060,22 @@ mod c08 {
             let v: Value = serde_json::from_slice(&std::fs::read(rp).unwrap_or_else(|e| machinery_error(&format!("read replay: {e}"))))
                 .unwrap_or_else(|e| machinery_error(&format!("parse replay: {e}")));
             let r = &v["replay"];
-            if !r["bytes_hex"].is_string() {
+            let origin = r["origin"].as_str().unwrap_or("");
+            if !r["bytes_hex"].is_string() && origin.starts_with("big-") {
+                // large valid xorbs are regenerated from their description; the whole 8-input job is re-run
+                let mut it = origin[4..].splitn(2, "chunks-");
+                let n: usize = it.next().and_then(|x| x.parse().ok()).unwrap_or(0);
+                let sch = scheme_from_name(it.next().unwrap_or("none")) as usize;
+                let ci = BIG_COUNTS.iter().position(|c| *c == n).unwrap_or_else(|| machinery_error("replay names an unknown large xorb"));
+                specs.push(("replay".into(), json!({"big": sch * BIG_COUNTS.len() + ci, "tier": tier.name()})));
+            } else if !r["bytes_hex"].is_string() {
                 machinery_error("replay file carries no input bytes");
-            }
+            } else {
             specs.push((
                 "replay".into(),
                 json!({"replay_bytes_hex": r["bytes_hex"], "hashes": r["hashes"], "origin": r["origin"], "mutation": r["mutation"], "tier": tier.name(), "aux": r["kind"].as_str() == Some("c08-aux")}),
             ));
+            }
         } else {
             let per_job = tier.pick(2500usize, 9000usize);
             for (si, _) in seeds.iter().enumerate() {
@@ -2020,6 +2089,11 @@ mod c08 {
                 if sd.footer_kind == FOOT_V1 {
                     specs.push((format!("aux:{}", sd.name), json!({"aux_seed": si, "tier": tier.name()})));
                 }
+            }
+            // large valid xorbs (schemes none and lz4; thorough: all four settings)
+            let nsch = tier.pick(2usize, 4usize);
+            for bi in 0..BIG_COUNTS.len() * nsch {
+                specs.push((format!("big:{bi}"), json!({"big": bi, "tier": tier.name()})));
             }
             let tiny: Vec<(&str, usize)> = tier.pick(vec![("full", 1), ("five", 6)], vec![("full", 2), ("five", 8)]);
             for (kind, maxlen) in tiny {
